@@ -74,11 +74,55 @@ def neighbor_scale(ctx, I, sizes, budget):
     ctx.extra["efficiency_error_by_rows"] = errs
 
 
+def default_distance_offset(ctx, I, n_cases):
+    """the DEFAULT nn_distance on un-centred integer-valued features (timestamps ~1.7e9 with gaps of a few units): exact nearest rows by
+    integer arithmetic; the scores must still sum to full-data utility minus null utility"""
+    rng = ctx.rng
+    from sklearn.neighbors import KNeighborsClassifier
+    for it in range(n_cases):
+        n_rows, m, c = rng.randint(20, 120), rng.randint(5, 30), rng.randint(2, 4)
+        base = 1_700_000_000
+        ts = rng.sample(range(0, 40 * n_rows), n_rows)
+        X = np.array([[base + t, rng.randrange(0, 50)] for t in ts], dtype=float)
+        y = np.array([i % c for i in range(n_rows)])
+        Xv = np.array([[base + rng.randrange(0, 40 * n_rows), rng.randrange(0, 50)] for _ in range(m)], dtype=float)
+        yv = np.array([rng.randrange(c) for _ in range(m)])
+
+        def d2(a, b):
+            return (int(a[0]) - int(b[0])) ** 2 + (int(a[1]) - int(b[1])) ** 2
+        nearest, ok = [], True
+        for j in range(m):
+            ds = sorted((d2(X[i], Xv[j]), i) for i in range(n_rows))
+            if ds[0][0] == ds[1][0]:
+                ok = False
+            nearest.append(ds[0][1])
+        if not ok:
+            continue
+        util = I["utility"].SklearnModelAccuracy(KNeighborsClassifier(n_neighbors=1))
+        case = dict(part="default-distance-offset", X=X.tolist()[:5], n_rows=n_rows, m=m, seed=ctx.seed)
+        try:
+            scores = np.asarray(I["imp"].ShapleyImportance(method="neighbor", utility=util).fit(X, y).score(Xv, yv), dtype=float)
+        except Exception as e:  # noqa
+            ctx.mismatch("score() raised with the default distance", case, impl=exc_name(e) + repr(e))
+            continue
+        hits = sum(1 for j in range(m) if y[nearest[j]] == yv[j])
+        null = min(Fraction(int(np.sum(yv == cl)), m) for cl in sorted(set(y.tolist())))
+        exact = Fraction(hits, m) - null
+        got = Fraction(float(np.sum(scores)))
+        ctx.case(("offset", it, n_rows, m), nontrivial=(exact != 0), sample=dict(case, exact=str(exact), got=float(got)), part="default-distance-offset")
+        if abs(got - exact) > Fraction(1, 10 ** 9):
+            ctx.mismatch("with the default distance on features far from the origin the scores do not sum to full-data utility minus null utility",
+                         case, impl=float(got), spec=str(exact))
+
+
 def small_games(ctx, I, n_cases, budget):
     rng = ctx.rng
     for it in range(n_cases):
         n_units = rng.randint(1, 6)
         exprs = [gen.rand_expr_flat(rng, n_units, 2, 2, 2, p_zero=0.25) for _ in range(rng.randint(1, 5))]
+        if it % 5 == 3:
+            exprs = [{"eq": [rng.randrange(n_units), (0 if rng.random() < 0.4 else 1)]} for _ in range(rng.randint(2, 6))]
+            exprs[0] = {"eq": [exprs[0]["eq"][0], 0]}
         table = tables.rand_table(rng, exprs, n_units, p_fail=0.2)
         null = Fraction(rng.randrange(-16, 17), 4)
         prov, _, _ = make_prov(I, exprs, n_units)
@@ -117,6 +161,7 @@ def run(ctx):
     else:
         sizes = [(2000, 100), (5000, 100), (10000, 200), (20000, 300), (40000, 100), (65536, 50)]
     neighbor_scale(ctx, I, sizes, 400 if q else 2400)
+    default_distance_offset(ctx, I, 4 if q else 30)
     small_games(ctx, I, 40 if q else 400, 800 if q else 3600)
     return ctx.finish("proof", "C06_neighbor(_point), C06_brute, C04_telescope: in exact arithmetic the modelled scores of each method sum to v(all) - v(none) at every size. "
                       "Floating-point accuracy at scale cannot be a Lean theorem; it is measured here against exact integer right-hand sides on a size ladder.", RULE)
